@@ -47,7 +47,8 @@ class Resp:
         self.content = content
         self.ok = status < 400
         self.status_code = status
-        self.reason = "OK" if status < 400 else "Precondition Failed"
+        self.reason = {200: "OK", 206: "Partial Content"}.get(
+            status, "Precondition Failed")
         self.url = url
         h = {"content-length": str(total)}
         if etag is not None:
@@ -65,6 +66,10 @@ class Session:
     def __init__(self, resource, url, etag=STRONG_ETAG, outage=0):
         self.res = resource
         self.url = url
+        #: further resources of the same host (one session per host)
+        self.more = {}
+        #: default headers of the session, sent with every request
+        self.headers = {}
         #: number of initial requests answered with an error page (503)
         self.outage = outage
         self.etag = etag       # validator the server labels the resource with
@@ -77,9 +82,19 @@ class Session:
         return Resp(self.res, len(self.res), url, self.etag)
 
     def get(self, url, headers=None, stream=False, timeout=None, **kw):
+        if url in self.more:
+            # another resource of this host: same session object, hence
+            # the same default headers
+            sub = self.more[url]
+            sub.headers = self.headers
+            merged = dict(headers or {})
+            return sub.get(url, headers=merged, stream=stream,
+                           timeout=timeout, **kw)
         if url != self.url:
             self.other_url.append(url)
-        hd = {str(k).lower(): v for k, v in (headers or {}).items()}
+        eff = dict(self.headers)
+        eff.update(headers or {})
+        hd = {str(k).lower(): v for k, v in eff.items()}
         if self.outage > 0:
             self.outage -= 1
             page = b"<html>503 Service Unavailable, try again</html>"
@@ -117,7 +132,8 @@ class Session:
                     and not str(ir).startswith("W/") and ir == self.etag):
                 self.if_range_failed.append(ir)
                 return self._full(url)
-        return Resp(self.res[a:b + 1], len(self.res), url, self.etag)
+        return Resp(self.res[a:b + 1], len(self.res), url, self.etag,
+                    status=206)
 
     def close(self):
         pass
@@ -190,7 +206,13 @@ class Model:
         other = Model.__new__(Model)
         other.it, other.env, other.cls = self.it, self.env, self.cls
         other.session = Session(resource, url)
-        self._sessions[url] = other.session
+        if url.split("/")[2] == self.session.url.split("/")[2]:
+            # same host: requests' session (and its default headers) is
+            # shared, as session_cache does per netloc
+            self.session.more[url] = other.session
+            self._sessions[url] = self.session
+        else:
+            self._sessions[url] = other.session
         r = L.run(lambda: self.cls(url, chunk_size=chunk_size,
                                    keep_chunks=keep_chunks))
         if r[0] != "ok":
